@@ -369,13 +369,9 @@ static void create_drawn(World &w, size_t i) {
       break;
     }
   }
-  bool src_ext = from && from->external();
   create(w, i, kind, arg, from);
   c.label((std::string("kind:") + kKind[kind]).c_str());
-  if (from) {
-    note_transition(w, "copy-init", false, w.s[i].external());
-    (void)src_ext;
-  }
+  if (from) note_transition(w, "copy-init", false, w.s[i].external());
 }
 
 static void run_enum(Ctx &c);
